@@ -1713,6 +1713,11 @@ def check_created_paths(ck, R):
                         and refers(k.func.value, k) and sp.is_scheme(safe_expand(fa, k.args[0], k)):
                     moves.append(k)
             starts = fa.nodes(c)
+            # an unlink registered with an ExitStack before the file is created runs on every way out of that `with`
+            if any(fa.inside(c, w_) and all(fa.cfg.must_pass(fa.nodes(k_), i_) for i_ in starts)
+                   for (k_, w_) in _exit_callbacks_removing(ck, fa, refers)) and starts:
+                ck.ob(R, fa.key(c, "created-path-in-scheme"), True, "the scratch file is unlinked by an exit callback registered before it is created", fa.where(c))
+                continue
             un, mv = set(fa.nodes_all(unlinks)), set(fa.nodes_all(moves)) - set(starts)
             gone = branch_filter(fa, lambda t, p: (not p) and ("exists(" in t or "isfile(" in t or "is_file(" in t))
             contained = _os_error_contained(fa)
@@ -1739,6 +1744,52 @@ def check_created_paths(ck, R):
                   % (m.name, what, A.short(p_ if p_ is not None else c, 60), how), fa.where(c))
     ck.ob(R, "%s::created-paths::scan" % FSDS, n_sites >= 2, "%d file-creating sites in the filesystem data source" % n_sites if n_sites >= 2 else
           "the filesystem data source creates fewer files than its link and its version object (%d sites found)" % n_sites, A.loc(cls, cls.node))
+
+
+def _exit_callbacks_removing(ck, fa: FA, refers):
+    """`<stack>.callback(F, ..)` registrations, <stack> bound by `with ExitStack() as <stack>`, whose callback unlinks the
+    file `refers` recognises: F an unlink function given the path, a bound `path.unlink`, a parameterless lambda that
+    unlinks it, or a repository function that unlinks its first parameter.  -> [(call, the with statement)]"""
+    out = []
+    for w_ in fa.stmts(ast.With):
+        names = {it.optional_vars.id for it in w_.items if isinstance(it.optional_vars, ast.Name)
+                 and isinstance(it.context_expr, ast.Call) and A.call_attr(it.context_expr) == "ExitStack"}
+        if not names:
+            continue
+        for k in fa.calls("callback"):
+            if not (isinstance(A.call_recv(k), ast.Name) and A.call_recv(k).id in names and fa.inside(k, w_) and k.args):
+                continue
+            f, rest = k.args[0], k.args[1:]
+            removes = False
+            if isinstance(f, ast.Lambda) and not f.args.args:
+                for x in ast.walk(f.body):
+                    if isinstance(x, ast.Call):
+                        d = A.call_dotted(x) or ""
+                        if (d in _UNLINK_FUNCS and x.args and refers(x.args[0], k)) or \
+                                (A.call_attr(x) == "unlink" and isinstance(x.func, ast.Attribute) and not d.startswith("os.") and refers(x.func.value, k)):
+                            removes = True
+            elif isinstance(f, ast.Attribute) and f.attr == "unlink" and (A.dotted(f) or "") not in _UNLINK_FUNCS and refers(f.value, k):
+                removes = True
+            elif rest and refers(rest[0], k):
+                d = A.dotted(f) or ""
+                if d in _UNLINK_FUNCS:
+                    removes = True
+                else:
+                    target = None
+                    if isinstance(f, ast.Name):
+                        target = ck.repo.try_func("%s.%s" % (fa.qual.split(".")[0], f.id))
+                    elif isinstance(f, ast.Attribute) and isinstance(f.value, ast.Name) and fa.fi.cls is not None and f.value.id in ("self", "cls", fa.fi.cls.name):
+                        target = fa.fi.cls.methods.get(f.attr)
+                    if target is not None and target.node is not None:
+                        ps = [p_ for p_ in target.params if p_ not in ("self", "cls")]
+                        for x in A.body_calls(target.node):
+                            d2 = A.call_dotted(x) or ""
+                            if ps and ((d2 in _UNLINK_FUNCS and x.args and A.norm(_strip_path_wrappers(x.args[0])) == ps[0]) or
+                                       (A.call_attr(x) == "unlink" and isinstance(x.func, ast.Attribute) and A.norm(x.func.value) == ps[0])):
+                                removes = True
+            if removes:
+                out.append((k, w_))
+    return out
 
 
 def _os_error_contained(fa: FA):
